@@ -152,6 +152,7 @@ type wres struct {
 }
 
 type world struct {
+	peerClosedNormally bool
 	readerDeadAtFinal, closedAtFinal bool
 	redials         []bool // outcome of every redial attempt, in order
 	deadBeforeClose bool
@@ -270,12 +271,21 @@ func (w *world) main() {
 				continue
 			}
 			// a read failure: a reset, or the peer going away (websocket status 1001, e.g. a broker restart): both are redialled
-			if kind := vsched.ChooseBudget(fmt.Sprintf("read-fail#%d@%d", f.idx, k), 3, vsched.BudF); kind != 0 {
+			nkinds := 3
+			if w.p.NormalClose {
+				nkinds = 4 // also: the peer closes the connection normally (no redial is owed; reads and writes then fail alike)
+			}
+			if kind := vsched.ChooseBudget(fmt.Sprintf("read-fail#%d@%d", f.idx, k), nkinds, vsched.BudF); kind != 0 {
 				w.failures++
-				if kind == 1 {
+				switch kind {
+				case 1:
 					f.readErr = fmt.Errorf("fake: read reset")
-				} else {
+				case 2:
 					f.readErr = fmt.Errorf("fake: peer restarts: %w", iscperrors.ErrConnectionGoingAwayClose)
+				case 3:
+					f.readErr = fmt.Errorf("fake: peer closed: %w", iscperrors.ErrConnectionNormalClose)
+					w.peerClosedNormally = true
+					return
 				}
 				continue
 			}
@@ -397,7 +407,7 @@ func run(sc vlib.Scenario, cfg vsched.Config) (*vsched.Result, vlib.Verdict) {
 	}
 	if longest > w.p.Attempts {
 		v.Fail("C18.budget", "over-budget", "one redial made %d consecutive failed attempts, MaxReconnectAttempts is %d (attempt outcomes %v by threads %v)", longest, w.p.Attempts, w.redials, w.redialBy)
-	} else if w.deadBeforeClose && longest < w.p.Attempts {
+	} else if w.deadBeforeClose && longest < w.p.Attempts && !w.peerClosedNormally { // (a connection the peer closed normally is not a broken one: no redial is owed)
 		v.Fail("C18.budget", "gave-up-early", "the transport gave up although no redial had made more than %d consecutive failed attempts, MaxReconnectAttempts is %d (attempt outcomes %v by threads %v)", longest, w.p.Attempts, w.redials, w.redialBy)
 	}
 	if len(w.laterOK) > 0 {
